@@ -4,7 +4,9 @@
 Translated, from traits/trait_dict_object.py and traits/trait_set_object.py of the working tree:
   * every mutator `TraitDict` defines (incl. `__ior__` under its `if sys.version_info >= (3, 9):` guard),
   * every mutator `TraitSet` defines,
-  * every mutator `TraitDictObject` / `TraitSetObject` define (none in the pinned tree: the lists are empty).
+  * every mutator `TraitDictObject` / `TraitSetObject` define (none in the pinned tree: the lists are empty),
+  * `TraitSetObject._validator` (the item validator of a `Set` trait value; not a mutator, but what
+    decides whether a deep copy / an orphaned value still validates).
 Emits Generated/MapSetProg.lean.  Props/C06 and Props/C07 prove that the hand-written models
 `Map.TraitDict.step` / `SetM.TraitSet.step` are the interpretation of these terms.
 
@@ -25,6 +27,8 @@ DICT_MUTATORS = ["__setitem__", "__delitem__", "__ior__", "clear", "update", "se
 SET_MUTATORS = ["__iand__", "__ior__", "__isub__", "__ixor__", "add", "clear", "discard", "difference_update",
                 "intersection_update", "pop", "remove", "symmetric_difference_update", "update"]
 VALIDATORS = {"key_validator": ".key", "value_validator": ".value", "item_validator": ".item"}
+EXCS = {"ValueError": ".valueError", "IndexError": ".indexError", "TypeError": ".typeError",
+        "KeyError": ".keyError", "TraitError": ".traitError", "AttributeError": ".attributeError"}
 
 
 class Unknown(Exception):
@@ -144,6 +148,13 @@ class Fn:
                 raise Unknown("keyword arguments in %s" % ast.dump(n)[:60])
             f = n.func
             if isinstance(f, ast.Name):
+                if (f.id == "getattr" and len(n.args) == 3 and is_name(n.args[0], "self")
+                        and isinstance(n.args[1], ast.Constant) and isinstance(n.args[1].value, str)):
+                    return '(.getattrSelf "%s" %s)' % (n.args[1].value, E(n.args[2]))
+                if f.id in self.slots and len(n.args) == 0:
+                    return "(.call0 (.var %d))" % self.slots[f.id]
+                if f.id in self.slots and len(n.args) == 3:
+                    return "(.call3 (.var %d) %s %s %s)" % ((self.slots[f.id],) + tuple(E(a) for a in n.args))
                 if f.id == "len" and len(n.args) == 1:
                     return "(.len %s)" % E(n.args[0])
                 if f.id == "dict" and len(n.args) == 1:
@@ -172,6 +183,10 @@ class Fn:
             if isinstance(n.slice, ast.Slice):
                 raise Unknown("slice expression")
             return "(.getItem %s %s)" % (E(n.value), E(n.slice))
+        if isinstance(n, ast.Attribute):
+            if is_name(n.value, "self"):
+                return '(.selfAttr "%s")' % n.attr
+            return '(.attr %s "%s")' % (E(n.value), n.attr)
         if isinstance(n, ast.BinOp):
             if isinstance(n.op, ast.BitOr):
                 return "(.bitor %s %s)" % (E(n.left), E(n.right))
@@ -185,7 +200,9 @@ class Fn:
             if isinstance(op, ast.Is):
                 if is_name(b, "Undefined"):
                     return "(.isUndefined %s)" % E(a)
-                raise Unknown("`is` with something other than Undefined")
+                if isinstance(b, ast.Constant) and b.value is None:
+                    return "(.isNone %s)" % E(a)
+                raise Unknown("`is` with something other than Undefined / None")
             x, y = E(a), E(b)
             if isinstance(op, ast.In):
                 return "(.contains %s %s)" % (x, y)
@@ -236,6 +253,10 @@ class Fn:
                 return [self.notify_stmt(v)]
             if is_super_call(v):
                 return [self.super_stmt(v, None)]
+            if (isinstance(v, ast.Call) and isinstance(v.func, ast.Attribute) and v.func.attr == "set_prefix"
+                    and isinstance(v.func.value, ast.Name) and v.func.value.id in self.slots and len(v.args) == 1
+                    and isinstance(v.args[0], ast.Constant) and isinstance(v.args[0].value, str) and not v.keywords):
+                return ["(.setPrefix %d)" % self.slots[v.func.value.id]]
             raise Unknown("expression statement %s" % ast.dump(v)[:80])
         if isinstance(s, ast.Assign) and len(s.targets) == 1:
             t, v = s.targets[0], s.value
@@ -277,6 +298,20 @@ class Fn:
                 t = self.temp()
                 return [r.replace("(.super none", "(.super (some %d)" % t, 1), "(.ret (.var %d))" % t]
             return ["(.ret %s)" % self.ex(v)]
+        if isinstance(s, ast.Try):
+            if (s.finalbody or s.orelse or len(s.handlers) != 1 or not isinstance(s.handlers[0].type, ast.Name)
+                    or s.handlers[0].name is None or s.handlers[0].type.id not in EXCS):
+                raise Unknown("try statement shape")
+            pre = self.pre
+            b = self.block(s.body)
+            i = self.slot(s.handlers[0].name)
+            h = self.block(s.handlers[0].body)
+            self.pre = pre
+            return ["(.tryExcept %s %s %d %s)" % (b, EXCS[s.handlers[0].type.id], i, h)]
+        if isinstance(s, ast.Raise):
+            if s.cause is None and isinstance(s.exc, ast.Name) and s.exc.id in self.slots:
+                return ["(.raiseVar %d)" % self.slots[s.exc.id]]
+            raise Unknown("raise statement shape")
         raise Unknown("statement %s" % type(s).__name__)
 
     def block(self, stmts):
@@ -289,6 +324,14 @@ class Fn:
         for x in reversed(out[:-1]):
             r = "(.seq %s\n      %s)" % (x, r)
         return r
+
+    def emit_func(self):
+        body = self.block(self.fn.body)
+        names = sorted(self.slots.items(), key=lambda kv: kv[1])
+        comment = " ".join("%d=%s" % (i, n) for n, i in names)
+        return ('  -- %s: slots %s\n  { nparams := %d, defaults := [%s], vararg := %s, nslots := %d, body :=\n'
+                '      %s }' % (self.fn.name, comment, len(self.params), ", ".join(self.defaults),
+                                "true" if self.vararg else "false", len(self.slots), body))
 
     def emit(self):
         body = self.block(self.fn.body)
@@ -353,12 +396,18 @@ def emit(traits_dir):
         mo = methods_of(classes[obj])
         parts.append((pfx + "ObjectProg", "the mutators `%s` defines" % obj,
                       [Fn(mo[m], notify_params).emit() for m in mutators if m in mo]))
+        if obj == "TraitSetObject":
+            if "_validator" not in mo:
+                raise Unknown("TraitSetObject._validator not found")
+            parts.append(("traitSetObjectValidator", "func", Fn(mo["_validator"], notify_params).emit_func()))
     lines = ["/- GENERATED by harness/translate/pylmap.py from the working tree - do not edit. -/",
              "import TraitsVerif.Model.PyLMap",
              "namespace TraitsVerif.Generated",
              "open TraitsVerif TraitsVerif.Model.PyLM", ""]
     for dname, doc, rows in parts:
-        if doc is None:
+        if doc == "func":
+            lines += ["/-- `TraitSetObject._validator` -/", "def %s : Func :=" % dname, rows, ""]
+        elif doc is None:
             lines += ["def %s : List String := [%s]" % (dname, ", ".join('"%s"' % r for r in rows)), ""]
         else:
             lines += ["/-- %s -/" % doc, "def %s : List (String × Func) := [" % dname, ",\n".join(rows), "]", ""]
